@@ -17,6 +17,7 @@ pub enum Error {
     FailedToDecodeString(String),
     InvalidStringId(StringId),
     DeserializationFailure(String),
+    SerializationFailure(String),
     UnknownFieldReferenceInEvolutionStep(String),
     InvalidConstructorName {
         constructor_name: String,
@@ -54,6 +55,7 @@ impl Display for Error {
             Error::FailedToDecodeString(msg) => write!(f, "Failed to decode string: {}", msg),
             Error::InvalidStringId(id) => write!(f, "Invalid string id: {}", id),
             Error::DeserializationFailure(msg) => write!(f, "Deserialization failure: {}", msg),
+            Error::SerializationFailure(msg) => write!(f, "Serialization failure: {}", msg),
             Error::UnknownFieldReferenceInEvolutionStep(msg) => {
                 write!(f, "Unknown field reference in evolution step: {msg}")
             }
